@@ -299,6 +299,15 @@ def make_cases(ctx, rng, cd, witnesses, gdict):
         else:
             clines.append("C vr%d compress2 %s - - %s" % (j, codec.params_str(p), codec.hx(x)))
         meta["vr%d" % j] = (x, False, "ring")
+    # ... and frames whose third block ends inside / next to the 2*WILDCOPY_OVERLENGTH wide band around the restart threshold
+    # (window = block = 1 KiB, buffer 1024 + 2*1024 + 64: after blocks of 1024, 1024, k the next block no longer fits iff k > 64)
+    for j, k in enumerate(rng.sample(range(65, 97), 3) + [64, 65, 96, 97, 128] if quick else list(range(56, 136))):
+        size = 2048 + k + 3000
+        x = codec.gen_input(rng, rng.choice(["text", "lowent", "random"]), size)
+        p = dict(level=1, windowLog=10, contentSize=rng.randrange(2), checksum=rng.randrange(2))
+        ops = "1024:1048576:1;1024:1048576:1;%d:1048576:1;1024:1048576:1;1000:1048576:1;%d:1048576:2" % (k, size)
+        clines.append("S ve%d %s - - %s %s" % (j, codec.params_str(p), ops, codec.hx(x)))
+        meta["ve%d" % j] = (x, False, "ring-edge")
     out, errs = cd.impl(clines)
     if errs:
         raise RuntimeError("zv_codec crashed while producing the valid frames: %r" % (errs[:1],))
@@ -405,14 +414,20 @@ def make_cases(ctx, rng, cd, witnesses, gdict):
     ctx.notes["legacy_frames"] = len(leg)
     for fr in leg:
         add("L", fr, "legacy-valid", cap=4096)
-        for i in range(60 if quick else 600):
+        for i in range(120 if quick else 1200):
             b = bytearray(fr)
             r = rng.random()
-            if r < 0.15:
+            if r < 0.12:
                 b = b[:rng.randrange(len(b))]
             else:
                 for _ in range(rng.choice([1, 1, 2, 4])):
-                    j = rng.randrange(4, min(len(b), 40)) if rng.random() < 0.5 else rng.randrange(4, len(b))
+                    q = rng.random()
+                    if q < 0.35:
+                        j = rng.randrange(4, min(len(b), 40))
+                    elif q < 0.75:    # the sequence bitstream is read backwards: its last bytes hold the initial states and the first offsets
+                        j = rng.randrange(max(4, len(b) - 16), len(b))
+                    else:
+                        j = rng.randrange(4, len(b))
                     b[j] = mut_byte(rng, b[j])
             add("L", bytes(b), "legacy-mut", cap=rng.choice([4096, 4096, 100, 0]))
     return cases
@@ -562,9 +577,13 @@ def evaluate(ctx, cd, model_exe, cases, out, crashes, npmax, variant):
         fl = "nostrict,w=4294967296" + (",magicless" if "ml" in c["flags"] else "")
         rin.append((c["id"], fl, c["dict"], c["data"]))
     t0 = time.time()
-    mres = cd.model(rin) if variant == "asan" else {}
-    core.log("R on %d frame-level cases: %.1fs" % (len(rin), time.time() - t0))
-    hist, perm, wd_items, rg_items = {}, {}, [], []
+    if variant == "asan":
+        mres = cd.model(rin)
+        ctx.c03_R = mres                     # the other build variants are judged against the same verdicts
+        core.log("R on %d frame-level cases: %.1fs" % (len(rin), time.time() - t0))
+    else:
+        mres = getattr(ctx, "c03_R", {})
+    hist, perm, wd_items, rg_items, pathdiff = {}, {}, [], [], []
     stricter, sites, stricter_ex, okmut = 0, {}, {}, 0
     for c in cases:
         if c["id"] not in out:
@@ -572,8 +591,11 @@ def evaluate(ctx, cd, model_exe, cases, out, crashes, npmax, variant):
         fd = fields(out[c["id"]])
         fl = fd.get("flags", "-")
         if fl != "-":
-            ctx.violation(replay_of(c, flags=fl, result=out[c["id"]][:600], variant=variant),
-                          what="decoder oracle failed on a %s input (%s build): %s" % (c["origin"], variant, fl))
+            if c["cmd"] == "F" and c.get("base") is None and set(fl.split(",")) <= {"PATHDIFF:strm", "PATHDIFF:strm1"}:
+                pathdiff.append((c, fl))        # decided below: tolerated only for frames that break the window rule
+            else:
+                ctx.violation(replay_of(c, flags=fl, result=out[c["id"]][:600], variant=variant),
+                              what="decoder oracle failed on a %s input (%s build): %s" % (c["origin"], variant, fl))
         o = c["origin"].split(":")[0]
         hist[o] = hist.get(o, 0) + 1
         if c["cmd"] != "F":
@@ -631,6 +653,23 @@ def evaluate(ctx, cd, model_exe, cases, out, crashes, npmax, variant):
         if len(c["data"]) <= 40 and c["origin"].startswith(("mut", "witness")):
             ctx.sample(dict(origin=c["origin"], data_hex=c["data"].hex(), libzstd=one[:60], R=(m[0], m[1] if m[0] == "ERR" else len(m[1]), m[2] if m[0] == "ERR" else "")))
         ctx.cov["traces_validated_against_impl"] += 1
+    if pathdiff:
+        # The buffered streaming decoder keeps windowSize bytes of history (ring buffer), the one-shot decoder all of the output.
+        # libzstd does not enforce "offset <= windowSize" on either path, so on a frame that BREAKS the window rule (R with
+        # the strict window: safety/341; without it: accepted) the two legitimately regenerate different bytes - inside
+        # their buffers (the sanitizer build is what says so).  Anything else that makes two paths differ is a violation.
+        strict = cd.model([(c["id"], "w=4294967296" + (",magicless" if "ml" in c["flags"] else ""), c["dict"], c["data"]) for c, _ in pathdiff])
+        tol = 0
+        for c, fl in pathdiff:
+            s = strict.get(c["id"])
+            if s is not None and s[0] == "ERR" and (s[1], s[2]) == ("safety", 341):
+                tol += 1
+                ctx.count(("window-rule-pathdiff", c["origin"].split(":")[0]), nontrivial=True)
+            else:
+                ctx.violation(replay_of(c, flags=fl, result=out[c["id"]][:600], variant=variant, strict_R=str(s)[:100]),
+                              what="decoder oracle failed on a %s input (%s build): %s (the frame does not break the window rule: strict R says %s)"
+                                   % (c["origin"], variant, fl, str(s[:1] + s[2:3] if s else None)))
+        ctx.notes["pathdiff_on_window_rule_violations_%s" % variant] = tol
     if variant == "asan":
         check_watchdog(ctx, model_exe, wd_items, npmax)
         ctx.notes["ring_traces"] = check_ring(ctx, model_exe, rg_items)
@@ -1086,6 +1125,16 @@ def run(ctx):
 
     rng = random.Random(ctx.seed)
     gdict = get_gdict(exe)
+    # observation O1 (docs/C03.md): the hostage-release call can be the limit-th zero-progress call with input and output
+    # available - the assert(0) site of the accounting code (compiled out in the build under test).  Recorded, not a verdict.
+    pa = subprocess.run([exe], input=b"A a\n", stdout=subprocess.PIPE, stderr=subprocess.PIPE, timeout=60)
+    fa = fields(pa.stdout.decode().strip())
+    ctx.notes["O1_hostage_release_probe"] = dict(counter_after_release=fa.get("counter"), ret=fa.get("r"), content_ok=fa.get("ok"), limit=npmax,
+                                                 assert_site_reached=(fa.get("counter", "").isdigit() and int(fa["counter"]) >= npmax and fa.get("r") == "0"))
+    if pa.returncode != 0 or fa.get("ok") != "1":
+        ctx.violation(dict(kind="probe", line="A a", rc=pa.returncode, result=pa.stdout.decode()[:300], report=pa.stderr.decode()[-1500:]),
+                      what="hostage-byte probe: a valid frame streamed with a late last byte is not decoded correctly / the decoder died (rc=%d): %s"
+                           % (pa.returncode, pa.stdout.decode()[:120]))
     cases = make_cases(ctx, rng, cd, witnesses, gdict)
     litbuf_tie(ctx, model_exe, ctx.c03_valid)
     entropy_tie(ctx, model_exe, ctx.c03_valid, gdict)
@@ -1112,6 +1161,8 @@ def run(ctx):
 
     if not ctx.quick:
         # other decoder build variants: same inputs, same oracles except the sanitizer; outputs must equal the asan build's
+        vtol = {}
+        ctx.notes["variant_differences_on_permissive_invalid_frames"] = vtol
         for variant in ("noasm", "x1", "x2"):
             vexe = core.build_harness("c03_fuzz", ["c03_fuzz.c"], variant=variant, extra_flags=defs)
             sub = [c for c in cases if c["cmd"] in ("F", "B")]
@@ -1125,8 +1176,16 @@ def run(ctx):
                 ka = fa.get("one", fa.get("blk"))
                 kb = fb.get("one", fb.get("blk"))
                 if ka != kb:
-                    ctx.violation(replay_of(c, asan=ka[:200], other=kb[:200], variant=variant),
-                                  what="decoder build variant %s gives a different result than the default build on a %s input" % (variant, c["origin"]))
+                    m = getattr(ctx, "c03_R", {}).get(c["id"])
+                    if m is not None and m[0] == "ERR" and m[2] in PERMISSIVE:
+                        # an invalid frame at one of the documented leniencies (P1-P4): which Huffman decoder (X1 / X2 / asm) notices
+                        # a literal stream that is not consumed exactly differs by construction; both stay inside their buffers
+                        vtol[variant] = vtol.get(variant, 0) + 1
+                        ctx.count(("variant-leniency", variant, m[2]), nontrivial=True)
+                    else:
+                        ctx.violation(replay_of(c, asan=ka[:200], other=kb[:200], variant=variant, R=str(m[:1] + m[2:3]) if m else None),
+                                      what="decoder build variant %s gives a different result than the default build on a %s input (reference decoder: %s)"
+                                           % (variant, c["origin"], (m[0], m[2] if m[0] == "ERR" else len(m[1])) if m else "not a frame-level case"))
 
     def search(broken):
         # a hash-set theorem that no longer checks: the model (which follows the regenerated constants) names the
